@@ -114,7 +114,11 @@ func deepNestChild(args []string) {
 	}
 	wg.Wait()
 	// non-recursive consumers with deeply nested input (iterative by construction)
-	for _, unit := range []string{"(", "[", "{", "a{", "@media{", "<a>", "<a b=", "[{\"a\":", "<!--", "/*", "url(", "\"\\"} {
+	others := []string{"(", "[", "{", "a{", "@media{", "<a>", "<a b=", "[{\"a\":", "<!--", "/*", "url(", "\"\\"}
+	if only != "" {
+		others = nil
+	}
+	for _, unit := range others {
 		src := strings.Repeat(unit, depth/50) // iterative consumers; error construction is O(offset), keep it short
 		fmt.Printf("NEST-other %q\n", unit)
 		driveCSSLexer([]byte(src), 2)
@@ -317,17 +321,27 @@ func c01Oracle(r *Rng, tier string, rep *Report) {
 		case err := <-done:
 			txt := outb.String()
 			if err != nil || !strings.Contains(txt, "DEEPNEST-OK") {
-				last := ""
-				for _, ln := range strings.Split(txt, "\n") {
-					if strings.HasPrefix(ln, "NEST") {
-						last = ln
+				// pinpoint: one child per construct
+				found := false
+				for _, ns := range jsNests {
+					c2 := exec.Command(self, "deepnest", depth, ns.name)
+					var ob bytes.Buffer
+					c2.Stdout, c2.Stderr = &ob, &ob
+					e2 := c2.Run()
+					t2 := ob.String()
+					if e2 != nil || !strings.Contains(t2, "DEEPNEST-OK") {
+						kind := "crash"
+						if strings.Contains(t2, "stack overflow") || strings.Contains(t2, "stack exceeds") {
+							kind = "fatal stack overflow"
+						}
+						src := ns.head + ns.unit + ns.unit + ns.unit + "..."
+						rep.Violate("c01-deepnest:"+ns.name, fmt.Sprintf("js.Parse on %q nested %s deep: %s in the child process (%v)", src, depth, kind, e2), map[string]interface{}{"cmd": "harness deepnest " + depth + " " + ns.name, "construct": ns.name, "head": ns.head, "unit": ns.unit, "depth": depth})
+						found = true
 					}
 				}
-				kind := "crash"
-				if strings.Contains(txt, "stack overflow") || strings.Contains(txt, "stack exceeds") {
-					kind = "stack-overflow"
+				if !found {
+					rep.Violate("c01-deepnest:other", fmt.Sprintf("deep nesting run failed (%v): %s", err, trunc(txt[max(0, len(txt)-400):], 400)), map[string]interface{}{"cmd": "harness deepnest " + depth})
 				}
-				rep.Violate("c01-deepnest:"+last, fmt.Sprintf("deep nesting: %s in child process at %q (%v)", kind, last, err), map[string]interface{}{"cmd": "harness deepnest " + depth, "last": last, "tail": trunc(txt[max(0, len(txt)-600):], 600)})
 			}
 		case <-time.After(600 * time.Second):
 			cmd.Process.Kill()
